@@ -203,10 +203,10 @@ def eval_case(case, drv):
             check(text[:k] + c + text[k:])
     # type hints denote the same signature
     ins, outs = sig
-    if all(len(a) > 0 for a in ins):   # an un-annotated parameter is not a signature argument
+    if True:   # an argument without pairs, `()`, is spelled with the empty annotation ""
         params = ", ".join(f"a{j}: Annotated[np.ndarray, {','.join(n + ':' + p for n, p in a)!r}]"
                            for j, a in enumerate(ins))
-        rets = [f"Annotated[np.ndarray, {','.join(n + ':' + p for n, p in a)!r}]" for a in outs if a]
+        rets = [f"Annotated[np.ndarray, {','.join(n + ':' + p for n, p in a)!r}]" for a in outs]
         if len(rets) == len(outs):
             ret = rets[0] if len(rets) == 1 else "Tuple[" + ", ".join(rets) + "]"
             src = f"def f({params}) -> {ret}:\n    return None\n"
@@ -233,7 +233,7 @@ def eval_case(case, drv):
     pool = [n for n in NAME_POOL if n not in names] + names
     variants = []
     for _ in range(6):
-        kind = rng.choice(["inj", "inj", "noninj", "pos", "perm"])
+        kind = rng.choice(["inj", "inj", "noninj", "pos", "perm", "arrow"])
         if kind == "inj":
             tgt = rng.sample(pool, len(names))
         elif kind == "perm":
@@ -249,6 +249,13 @@ def eval_case(case, drv):
             flat = [pr for a in v[0] + v[1] for pr in a]
             if flat:
                 rng.choice(flat)[1] = rng.choice(POSITIONS)
+        if kind == "arrow":
+            # the same arguments in the same order, the arrow one place further left or right
+            vi, vo = v
+            if len(vi) >= 2 and (len(vo) < 2 or rng.random() < 0.5):
+                v = (vi[:-1], [vi[-1]] + vo)
+            elif len(vo) >= 2:
+                v = (vi + [vo[0]], vo[1:])
         variants.append(v)
     for v in variants:
         a, b = _GridUFuncSignature.from_string(text), _GridUFuncSignature.from_string(sig_text(v))
